@@ -9,9 +9,9 @@
     [get_cell_size] reads the flag and writes the cache inside one lock region: a value
     computed under the old flag is written before the clear, a value written after the
     clear was computed under the new flag. *)
-From Coq Require Import List Bool Arith Lia.
+From Coq Require Import List Bool Arith.
 Import ListNotations.
-From TI Require Import lib.Sched model.Caches.
+From TI Require Import lib.Sched model.Caches proofs.C15Arith.
 
 (** inside the region protected by [_cell_size_lock] *)
 Definition w_inside (s : wstate) (t : nat) : Prop :=
@@ -323,7 +323,7 @@ Lemma swap_toggle_refuted_late_flag :
     /\ w_flag s = true /\ w_cache s = Some false /\ w_answer s <> w_flag s.
 Proof.
   exists false, true, sw_prog, sw_sched_late. cbv zeta. split; [|split; [|split]].
-  - intros t Lt. destruct t as [|[|t]]; [split; vm_compute; reflexivity|split; vm_compute; reflexivity|lia].
+  - intros t Lt. destruct t as [|[|t]]; [split; vm_compute; reflexivity|split; vm_compute; reflexivity|nat_ar].
   - vm_compute. reflexivity.
   - vm_compute. reflexivity.
   - vm_compute. discriminate.
